@@ -407,6 +407,29 @@ pub fn first_group_names(b: &[u8]) -> Option<(u8, Vec<String>)> {
     Some((first, names))
 }
 
+/// (delimiter, attribute names in wire order) for every group of the message
+pub fn group_names(b: &[u8]) -> Vec<(u8, Vec<String>)> {
+    let (_h, items, _t, _bd) = scan(b);
+    let mut out: Vec<(u8, Vec<String>)> = Vec::new();
+    for i in items {
+        match i {
+            Item::Delim(t, _) => {
+                if t != 0x03 {
+                    out.push((t, Vec::new()));
+                }
+            }
+            Item::Elem(e) => {
+                if !e.name.is_empty() {
+                    if let Some(g) = out.last_mut() {
+                        g.1.push(String::from_utf8_lossy(&e.name).into_owned());
+                    }
+                }
+            }
+        }
+    }
+    out
+}
+
 /// token class at a byte offset (Payload past the boundary)
 pub fn class_at(toks: &[Tok], off: usize) -> TokClass {
     for t in toks {
